@@ -11,6 +11,7 @@ import math
 import os
 import threading
 
+import common
 from common import Atom, Case, Driver, ImplError, Run, call_impl, enc_mapper, prepare, sx
 
 PROOFS = ["FGVerif.Proofs.C08"]
@@ -394,6 +395,20 @@ def run(tier, seed):
     ]
     r.extra_cov["exhaustive_domain"] = "all pattern/structure lists over %s with %s, times %d configurations" % (
         ALPHA, "|pat|+|str| <= 4" if tier == "quick" else "|pat|,|str| <= 3 and all with |pat|+|str| <= 5", 20)
+    # known finding K6 (recorded, not repaired): the witness is replayed against the real code on every run
+    try:
+        from fgutils.permutation import PermutationMapper
+        k6 = next((f for f in common.load_known_findings() if f["id"] == "K6" and f.get("status") == "open"), None)
+        odd = PermutationMapper("R", ignore_case=True, can_map_to_nothing=["r", "H"]).permute(["R", "H"], ["C"])
+        nat = PermutationMapper("R", ignore_case=True, can_map_to_nothing=["H", "r"]).permute(["R", "H"], ["C"])
+        reproduced = [(0, -1), (1, -1)] in [list(m) for m in odd] and [(0, -1), (1, -1)] not in [list(m) for m in nat]
+        r.extra_cov["known_finding_K6_reproduced"] = bool(reproduced)
+        if k6 is not None and reproduced:
+            print("KNOWN-FINDING: property=C08 %s [K6]" % k6["what"][:300])
+        elif k6 is not None:
+            print("NOTE property=C08 known finding K6 does not reproduce on this tree")
+    except Exception as e:  # the witness must never decide the verdict
+        r.extra_cov["known_finding_K6_reproduced"] = "error: %r" % (e,)
     return r.finish(
         level="proof",
         rule="exhaustive: every pattern/structure list over {C,c,O,H,R,Cl} (quick: |pat|+|str|<=4; thorough: |pat|,|str|<=3 and |pat|+|str|<=5) "
